@@ -68,7 +68,7 @@ mutual
     | .node h v ks => by rw [validX_node, validTree_eq, validXList_const b ks]
   theorem validXList_const (b : Bool) : ∀ ks : List HTree, validXList (fun _ => b) ks = validList b ks
     | [] => by simp [validXList, validList]
-    | k :: ks => by rw [validXList_cons, validList_cons, validX_const b k, validXList_const b ks]
+    | k :: ks => by rw [validXList_cons, fs_validList_cons, validX_const b k, validXList_const b ks]
 end
 
 mutual
